@@ -62,10 +62,12 @@ type normalizer struct {
 
 	closures   map[types.Object]*closureInfo // local closure variables that are only ever called
 	closureSet bool
-	marked     map[types.Object]bool // closures that received (or already have) a `_ = f` marker this round
-	extra      map[string][]textEdit // edits produced on the side (markers), per file
-	encl       map[ast.Stmt]*types.Signature // enclosing function of each collected statement
+	marked     map[types.Object]bool           // closures that received (or already have) a `_ = f` marker this round
+	extra      map[string][]textEdit           // edits produced on the side (markers), per file
+	encl       map[ast.Stmt]*types.Signature   // enclosing function of each collected statement
 	addImp     map[*ast.File]map[string]string // imports to add to a file (path -> local name or "")
+	curCall    *ast.CallExpr                   // the call that is the whole right-hand side of the assignment being rewritten
+	curLHS     []ast.Expr                      // and that assignment's targets
 }
 
 func (n *normalizer) off(p token.Pos) int { return n.fset.Position(p).Offset }
@@ -596,8 +598,47 @@ func (n *normalizer) inlineCallX(call *ast.CallExpr, file *ast.File, at token.Po
 	assigned := n.assignedParams(fd)
 	declared := n.declaredNames(fd)
 	subst := map[types.Object]string{}
+	// overwritten: caller variables that the enclosing assignment overwrites with a result of this
+	// very call. A parameter the callee assigns to may stand for such a variable directly - the
+	// callee's updates of its copy are lost in the original only until the assignment replaces the
+	// variable anyway - provided no other argument mentions the variable.
+	overwritten := map[types.Object]bool{}
+	if n.curCall == call {
+		for _, l := range n.curLHS {
+			if id, ok := l.(*ast.Ident); ok && info.Defs[id] == nil {
+				if o := info.Uses[id]; o != nil {
+					overwritten[o] = true
+				}
+			}
+		}
+	}
+	mentions := func(o types.Object, except ast.Expr) bool {
+		found := false
+		for _, a := range call.Args {
+			if a == except {
+				continue
+			}
+			ast.Inspect(a, func(x ast.Node) bool {
+				if id, ok := x.(*ast.Ident); ok && info.Uses[id] == o {
+					found = true
+				}
+				return !found
+			})
+		}
+		return found
+	}
 	canSubst := func(o types.Object, arg ast.Expr) bool {
-		if assigned[o] || !n.pureArg(arg) {
+		if assigned[o] {
+			id, isId := arg.(*ast.Ident)
+			if !isId || info.Uses[id] == nil || !overwritten[info.Uses[id]] || mentions(info.Uses[id], arg) || declared[id.Name] {
+				return false
+			}
+			if !types.Identical(info.Uses[id].Type(), o.Type()) {
+				return false
+			}
+			return true
+		}
+		if !n.pureArg(arg) {
 			return false
 		}
 		for _, nm := range identsOf(arg) {
@@ -877,6 +918,9 @@ func (n *normalizer) rewriteStmt(st ast.Stmt, file *ast.File) (string, bool) {
 		if len(x.Rhs) == 1 {
 			if c, ok := x.Rhs[0].(*ast.CallExpr); ok && n.isTarget(c) {
 				multiOK, multiCall = true, c
+				if x.Tok == token.ASSIGN || x.Tok == token.DEFINE {
+					n.curCall, n.curLHS = c, x.Lhs
+				}
 			}
 		}
 	case *ast.ReturnStmt:
@@ -1100,6 +1144,7 @@ func (n *normalizer) rewriteErrChecked(as *ast.AssignStmt, ifst *ast.IfStmt, fil
 	if len(missing) > 0 {
 		return "", false
 	}
+	n.curCall, n.curLHS = call, as.Lhs
 	txt, _, ok := n.inlineCallX(call, file, as.Pos(), &inlineOpts{targets: targets, handler: handler, avoid: avoid})
 	if !ok {
 		return "", false
